@@ -19,7 +19,7 @@ def main():
     rng = random.Random(chk.seed)
     quick = chk.tier == "quick"
     cases, jobs, pyres, records, tail_ok, errors = C.canonical_ops(
-        chk, 150 if quick else 2000, 6 if quick else 1, 3 if quick else 4, rng, overfill=True,
+        chk, 150 if quick else 500, 6 if quick else 2, 3 if quick else 4, rng, overfill=True,
         sanitize=not quick, k=2, fresh=True)
     C.report_build_errors(chk, cases, errors)
     for i, vi, e, h, o in records:
